@@ -1,5 +1,5 @@
 """C20 — The C API is a faithful binding of the engine (structural part)."""
-from sa.facts import AnalysisBroken, expr_str, qmatch, strip_casts, relpath
+from sa.facts import AnalysisBroken, expr_str, qmatch, strip_casts, relpath, core
 from sa import cfg
 import re
 from sa.flow import mentions, taint_closure, param_did, arg_nodes
@@ -218,6 +218,13 @@ def run(ctx):
         if did is None:
             raise AnalysisBroken("callback table: %s has no parameter %s" % (meth, pname))
         t = taint_closure(f, {did})
+        # implicit flow: a local assigned under a switch / if on the parameter (an explicit enumeration mapping) carries it too
+        for n_ in f.nodes:
+            if n_.get("k") == "bin" and n_["op"] == "=" and core(n_.child("l")) is not None and core(n_.child("l")).get("k") == "ref":
+                for anc in f.ancestors(n_):
+                    if anc.get("k") in ("switch", "if") and mentions(anc.child("c"), t):
+                        t = t | taint_closure(f, {core(n_.child("l")).get("did")})
+                        break
         found = False
         called = False
         for c in f.calls():
@@ -343,7 +350,8 @@ def run(ctx):
         r.check(ok, "llb_buildengine_task_is_complete|memcpy", "", "value bytes copied with a length other than value->length", f, c)
 
     # ------------------------------------------------------------------
-    r = rep.rule("R-ENUM-AGREE", "enums converted by cast across the boundary have identical numeric tables", floor=1)
+    r = rep.rule("R-ENUM-AGREE", "enums converted across the boundary keep their meaning: a conversion by cast needs identical numeric tables; a conversion by "
+                                 "`switch` maps every enumerator to the one of the same name / value", floor=1)
     seen = set()
     for f in cfuncs:
         for n in f.nodes:
@@ -372,6 +380,40 @@ def run(ctx):
                 detail = "%d vs %d enumerators" % (len(A), len(B))
             r.check(ok, "%s->%s" % (from_t.split("::")[-1], to_t), "%d enumerators agree" % len(A),
                     "enum tables disagree: " + detail, f, n)
+    # conversion written out as a switch over one enumeration assigning (or returning) enumerators of another
+    norm = lambda s_: s_.lower().replace("_", "")
+    for f in cfuncs:
+        bf = None
+        for sw in [b_ for b_ in f.blocks.values() if b_.term and b_.term.get("cls") == "SwitchStmt"]:
+            subj = sw.effective_cond()
+            st = subj.ctype() if subj is not None else ""
+            src = [e for nm_, e in prog.enums.items() if nm_ == st or nm_.endswith("::" + st.split("::")[-1]) and st]
+            if not src:
+                continue
+            src = src[0]
+            if bf is None:
+                bf = cfg.BranchFacts(f, kill="assign")
+            for n in f.nodes:
+                tgt = None
+                if n.get("k") == "bin" and n["op"] == "=":
+                    tgt = core(n.child("r"))
+                elif n.get("k") == "return" and "e" in n:
+                    tgt = core(n.child("e"))
+                if tgt is None or tgt.get("k") != "ref":
+                    continue
+                dst = [e for nm_, e in prog.enums.items() if any(en["n"] == tgt.get("n") for en in e["enumerators"])]
+                if not dst or dst[0] is src:
+                    continue
+                facts = bf.at_node(n) or frozenset()
+                case = [a_.split("=", 1)[1].split("::")[-1] for a_, p_ in facts if p_ and a_.startswith("switch:")]
+                if not case:
+                    continue
+                sv = [en["v"] for en in src["enumerators"] if en["n"] == case[0]]
+                dv = [en["v"] for en in dst[0]["enumerators"] if en["n"] == tgt.get("n")]
+                ok = bool(sv) and bool(dv) and sv[0] == dv[0] and (norm(tgt.get("n")).endswith(norm(case[0])) or norm(case[0]).endswith(norm(tgt.get("n"))))
+                r.check(ok, "%s|case %s" % (f.name.split("::")[-1] if not f.is_lambda else f.key, case[0]), "-> %s" % tgt.get("n"),
+                        "%s maps %s to %s (value %s -> %s): the C client is told something else than the C++ client" % (
+                            f.name, case[0], tgt.get("n"), sv[0] if sv else "?", dv[0] if dv else "?"), f, n)
 
     # ------------------------------------------------------------------
     r = rep.rule("R-STRUCT-INIT",
@@ -466,4 +508,10 @@ VARIANTS = [
          new="  unsigned id = input_id;\n  coreti->request(KeyType((const char*)key->data, key->length), id);", expect=("R-FORWARD-ROLE", "input_id")),
     dict(name="benign-input-id-through-wide-local", file=CC, old="  coreti->request(KeyType((const char*)key->data, key->length), input_id);",
          new="  uintptr_t id = input_id;\n  coreti->request(KeyType((const char*)key->data, key->length), id);", expect=None),
+    dict(name="status-enum-switch-with-slip", file=CC, old="      rule.update_status(rule.context, engineContext,\n                         (llb_rule_status_kind_t)status);",
+         new="      llb_rule_status_kind_t kind = llb_rule_is_scanning;\n      switch (status) {\n      case Rule::StatusKind::IsScanning: kind = llb_rule_is_scanning; break;\n      case Rule::StatusKind::IsUpToDate: kind = llb_rule_is_complete; break;\n      case Rule::StatusKind::IsComplete: kind = llb_rule_is_complete; break;\n      }\n      rule.update_status(rule.context, engineContext, kind);",
+         expect=("R-ENUM-AGREE", "case IsUpToDate")),
+    dict(name="benign-status-enum-switch-correct", file=CC, old="      rule.update_status(rule.context, engineContext,\n                         (llb_rule_status_kind_t)status);",
+         new="      llb_rule_status_kind_t kind = llb_rule_is_scanning;\n      switch (status) {\n      case Rule::StatusKind::IsScanning: kind = llb_rule_is_scanning; break;\n      case Rule::StatusKind::IsUpToDate: kind = llb_rule_is_up_to_date; break;\n      case Rule::StatusKind::IsComplete: kind = llb_rule_is_complete; break;\n      }\n      rule.update_status(rule.context, engineContext, kind);",
+         expect=None),
 ]
